@@ -4,14 +4,21 @@
 # input within the bound; 1: failing input(s) in <out.json>; 2: no stand-in for this property;
 # 3: build fault. Nothing is kept outside <out.json>.
 set -u
-PROP="$1"; REPO="$(readlink -f "$2")"; TIER="$3"; OUT="$4"; shift 4
 D="$(cd "$(dirname "$0")/.." && pwd)/bounded"
-P=$(echo "$PROP" | tr 'A-Z' 'a-z')
+# which driver serves which property (C07 shares the cache driver of C06)
+driver() { case "$1" in C07) echo c06;; *) echo "$1" | tr 'A-Z' 'a-z';; esac; }
+if [ "$1" = "--has" ]; then [ -d "$D/$(driver "$2")" ]; exit $?; fi
+PROP="$1"; REPO="$(readlink -f "$2")"; TIER="$3"; OUT="$4"; shift 4
+P=$(driver "$PROP")
 [ -d "$D/$P" ] || exit 2
 export GOFLAGS=-mod=mod GOPROXY=off GOSUMDB=off GOTOOLCHAIN=local CGO_ENABLED=0
 case "$PROP:$TIER" in
   C01:quick) ARGS="-segs 3";;
   C01:*) ARGS="-segs 4";;
+  C06:quick) ARGS="-len 2 -check remote";;
+  C06:*) ARGS="-len 3 -check remote";;
+  C07:quick) ARGS="-len 2 -check view";;
+  C07:*) ARGS="-len 3 -check view";;
   C17:quick) ARGS="-n 5 -args 2 -arglen 2";;
   C17:*) ARGS="-n 7 -args 2 -arglen 3";;
   C20:quick) ARGS="-depth 2 -vlen 2";;
